@@ -176,6 +176,7 @@ func Finish(mk func() Driver, driver string, st *Stats, o Options, extraCov map[
 		"states":                        st.States,
 		"transitions":                   st.Transitions,
 		"traces_validated_against_impl": st.ConfValidated,
+		"refusals_replayed_on_blocks":   st.ConfRefusals,
 		"samples":                       st.Samples,
 		"evaluations":                   st.Transitions,
 		"distinct_nontrivial":           st.NewChanged,
